@@ -307,6 +307,8 @@ func effectOf(s ast.Stmt) string {
 		}
 	case *ast.DeclStmt:
 		return ""
+	case *ast.IncDecStmt:
+		return exprKey2(x.X) + x.Tok.String()
 	}
 	return "?" + fmt.Sprintf("%T", s)
 }
@@ -425,6 +427,53 @@ func (t *decTr) decE(stmts []ast.Stmt, effects []string, end string, srcs map[st
 			elseStmts = rest
 		}
 		return "(if " + c + " then " + t.decE(thenStmts, effects, end, srcs) + " else " + t.decE(elseStmts, effects, end, srcs) + ")"
+	case *ast.TypeSwitchStmt:
+		// `switch v := x.(type) { case T: … }` is a chain of tests "x is T" in source order
+		if x.Init != nil {
+			failf(x, "unsupported type switch (init statement)")
+		}
+		t.srcs = srcs
+		subject := ""
+		switch a := x.Assign.(type) {
+		case *ast.AssignStmt:
+			subject = exprKey2(a.Rhs[0].(*ast.TypeAssertExpr).X)
+		case *ast.ExprStmt:
+			subject = exprKey2(a.X.(*ast.TypeAssertExpr).X)
+		}
+		rest := stmts[1:]
+		deflt := rest
+		type tarm struct {
+			c    string
+			body []ast.Stmt
+		}
+		var arms []tarm
+		for _, cs := range x.Body.List {
+			cc := cs.(*ast.CaseClause)
+			for _, bs := range cc.Body {
+				if br, ok := bs.(*ast.BranchStmt); ok && (br.Tok == token.FALLTHROUGH || br.Tok == token.BREAK) {
+					failf(bs, "unsupported break/fallthrough in a switch")
+				}
+			}
+			body := append(append([]ast.Stmt{}, cc.Body...), restIfFallsThrough(cc.Body, rest)...)
+			if cc.List == nil {
+				deflt = body
+				continue
+			}
+			var cs2 []string
+			for _, v := range cc.List {
+				cs2 = append(cs2, t.hole(subject+" is "+exprKey2(v)))
+			}
+			c := cs2[0]
+			if len(cs2) > 1 {
+				c = "(" + strings.Join(cs2, " || ") + ")"
+			}
+			arms = append(arms, tarm{c, body})
+		}
+		out := t.decE(deflt, effects, end, srcs)
+		for i := len(arms) - 1; i >= 0; i-- {
+			out = "(if " + arms[i].c + " then " + t.decE(arms[i].body, effects, end, srcs) + " else " + out + ")"
+		}
+		return out
 	case *ast.SwitchStmt:
 		// `switch tag { case v: … }` is a chain of tests `tag == v` in source order; a clause's body falls through to
 		// what follows the switch
@@ -608,6 +657,13 @@ var decJobs = []decJob{
 	{"pkg/parser/comment.go", "Parser", "resolveConverters", "resolveConvertersHead", "for _, method", false, ""},
 	{"pkg/parser/comment.go", "Parser", "resolveConverters", "resolveConvertersStep", "", false, "%loop"},
 	{"pkg/parser/comment.go", "Parser", "resolveConverters", "resolveConvertersEnd", "", false, "%afterloop"},
+	{"pkg/builder/assignment.go", "assignmentBuilder", "structToStruct", "structToStructStep", "", false, "@IterateStructFields"},
+	{"pkg/builder/assignment.go", "assignmentBuilder", "addressedBelow", "addressedBelowStep", "", false, "@IterateStructFields"},
+	{"pkg/builder/assignment.go", "assignmentBuilder", "addressedBelow", "addressedBelow", "", false, ""},
+	{"pkg/builder/assignment.go", "", "isAddressable", "isAddressable", "", false, ""},
+	{"pkg/builder/method.go", "", "usesElementLoop", "usesElementLoopStep", "", false, "%loop"},
+	{"pkg/builder/assignment.go", "assignmentBuilder", "resolveTemplatedExpr", "templatedHead", "for i := 1", false, ""},
+	{"pkg/builder/assignment.go", "assignmentBuilder", "resolveTemplatedExpr", "templatedStep", "", false, "%loop"},
 }
 
 func genDecisions(repo string) string {
@@ -746,6 +802,10 @@ func genDecision(repo string, j decJob) string {
 		}
 	}
 	sb.WriteString("-/\n")
-	fmt.Fprintf(&sb, "def %s (%s : Bool) : String :=\n  %s\n\n", j.name, strings.Join(params, " "), body)
+	if len(params) == 0 {
+		fmt.Fprintf(&sb, "def %s : String :=\n  %s\n\n", j.name, body)
+	} else {
+		fmt.Fprintf(&sb, "def %s (%s : Bool) : String :=\n  %s\n\n", j.name, strings.Join(params, " "), body)
+	}
 	return sb.String()
 }
